@@ -316,29 +316,48 @@ def run_check(prop, tier, seed, replay=None):
         print(f'replay {replay}: property {"FAILS" if fails else "holds"} on this input')
         return 1 if fails else 0
     prop_mod = f'{PKG}.Props.{prop}'
-    # One check at a time per /verif checkout: Generated/*.lean and the compiled models are shared, and a concurrent
-    # run against another tree (STARSIM_REPO, testing only) must not swap them between this run's proof and its drivers.
-    lock = open(os.path.join(LEAN, '.verif.lock'), 'w')
-    fcntl.flock(lock, fcntl.LOCK_EX)
-    _RUN_LOCK_HELD[0] = True
+    global LEAN
+    private = None
+    if os.environ.get('STARSIM_REPO') and os.path.realpath(os.environ['STARSIM_REPO']) != os.path.realpath('/repo'):
+        # Testing against a scratch tree: work in a PRIVATE copy of the Lean project (sources + compiled files), so the
+        # facts regenerated from that tree never reach the shared lean/ directory that checks of /repo use concurrently.
+        import tempfile, shutil
+        private = tempfile.mkdtemp(prefix=f'verif_lean_{prop}_')
+        sh(['cp', '-a', os.path.join(VERIF, 'lean') + '/.', private])
+        LEAN = private
     try:
         return _run_check_locked(mod, ctx, prop, prop_mod, tier, seed)
     finally:
+        if private:
+            import shutil
+            LEAN = os.path.join(VERIF, 'lean')
+            shutil.rmtree(private, ignore_errors=True)
+
+
+class _BuildLock:
+    """ serialises the short extract + build phase of runs that share one Lean directory (all of them regenerate the same
+        files from the same /repo, so the correspondence and search phases need no lock) """
+    def __enter__(self):
+        self.f = open(os.path.join(LEAN, '.verif.lock'), 'w')
+        fcntl.flock(self.f, fcntl.LOCK_EX)
+        _RUN_LOCK_HELD[0] = True
+    def __exit__(self, *a):
         _RUN_LOCK_HELD[0] = False
-        fcntl.flock(lock, fcntl.LOCK_UN)
+        fcntl.flock(self.f, fcntl.LOCK_UN)
 
 
 def _run_check_locked(mod, ctx, prop, prop_mod, tier, seed):
-    step_extract(ctx, getattr(mod, 'GENERATED', []))
-    step_prove(ctx, prop_mod)
-    if ctx.thorough and not ctx.broken:
-        step_leanchecker(ctx, prop_mod)
-    # drivers need the model oleans
-    drv = getattr(mod, 'DRIVER_MODULES', [])
-    if drv:
-        rc, out, err = sh(['lake', 'build'] + drv, cwd=LEAN, timeout=3000)
-        if rc != 0:
-            ctx.broke('proof', ','.join(drv), 'model modules failed to build: ' + (out + err)[-1500:])
+    with _BuildLock():
+        step_extract(ctx, getattr(mod, 'GENERATED', []))
+        step_prove(ctx, prop_mod)
+        if ctx.thorough and not ctx.broken:
+            step_leanchecker(ctx, prop_mod)
+        # drivers need the model oleans
+        drv = getattr(mod, 'DRIVER_MODULES', [])
+        if drv:
+            rc, out, err = sh(['lake', 'build'] + drv, cwd=LEAN, timeout=3000)
+            if rc != 0:
+                ctx.broke('proof', ','.join(drv), 'model modules failed to build: ' + (out + err)[-1500:])
     # correspondence
     try:
         mod.correspond(ctx)
